@@ -158,8 +158,18 @@ PickJudge(e) ==
         /\ CDrift("pushpull-partner", e, e.node # e.n /\ e.info = "alive")
         /\ PrintT(<<"STAT2", "pushpull_picks", 1, 1>>)
 
+\* C15 in the simulations: with a key configured (outgoing verification is on by default) every buffer a
+\* node hands to the network opens under the key with the label as associated data, apart from the
+\* cleartext label header of a stream.  The harness opens them with the standard library's AES-GCM and
+\* reports the ones that do not open.
+SealJudge(e) ==
+  /\ (e.ev = "Unsealed") => CReport("C15_SimSealed", e, FALSE)
+  /\ (e.ev = "SealStat") => /\ PrintT(<<"STAT2", "C15_sim_buffers_opened", e.nodeOps, e.nodeOps + e.nnPost>>)
+                            /\ PrintT(<<"STAT2", "C15_sim_label_headers", e.nnPre, e.nnPre>>)
+
 CJudge(e) ==
   /\ PickJudge(e)
+  /\ SealJudge(e)
   /\ C04Judge(e)
   /\ ProbeJudge(e)
   /\ (e.ev = "End") => EndJudge(e)
